@@ -10,7 +10,7 @@ RULE = ("case = (generated 2D plotfile spec (rectangular domains down to one blo
         "numpy.empty is pre-filled with NaN so a never-written pixel is visible; non-trivial = >=2 levels or >=2 mesh/layout features")
 
 
-def run_case(ctx, rep, spec, fields, limit, serial, model, start=None, path=None, truth=None):
+def run_case(ctx, rep, spec, fields, limit, serial, model, start=None, path=None, truth=None, cli=False):
     from amr_kitchen.mandoline.mandoline import Mandoline
     if path is None:
         path = ctx.newdir("c08_")
@@ -18,13 +18,21 @@ def run_case(ctx, rep, spec, fields, limit, serial, model, start=None, path=None
     names = dedup_names(spec["fields"])
     nlev = len(spec["levels"])
     L = nlev - 1 if limit is None else limit
-    case = {"spec": spec, "fields": fields, "limit": limit, "serial": serial}
+    case = {"spec": spec, "fields": fields, "limit": limit, "serial": serial, "cli": cli}
+    if cli: rep.count("console-script")
     feats = plotgen.describe(spec)
-    rep.case({"s": spec, "f": fields, "l": limit, "ser": serial}, nontrivial=(nlev >= 2 or len(feats) >= 2))
+    rep.case({"s": spec, "f": fields, "l": limit, "ser": serial, "cli": cli}, nontrivial=(nlev >= 2 or len(feats) >= 2))
     rep.count("serial" if serial else "pool"); rep.count(f"limit:{limit}")
     try:
         with alarm(120), quiet(), geom.tainted_empty(), pools.controlled(start=start):
-            out = Mandoline(path, fields=fields, limit_level=limit, serial=serial, verbose=0).slice(fformat="return")
+            if cli:
+                from .. import tools
+                out = tools.mandoline_cli(path, "array", ctx.newdir("c08cli_"), fields, None, None, limit, serial)
+            else:
+                out = Mandoline(path, fields=fields, limit_level=limit, serial=serial, verbose=0).slice(fformat="return")
+    except SystemExit as e:
+        rep.fail(f"the mandoline console script exited ({e.code}) on a valid invocation", case)
+        return
     except Exception as e:
         rep.fail(f"flattening raised {type(e).__name__}: {e}", case)
         return
@@ -83,11 +91,11 @@ def run(ctx, rep, model=True):
             limit = [None, 0, nlev - 1, max(nlev - 2, 0)][(i + j) % 4]
             serial = (i + j) % 2 == 0
             run_case(ctx, rep, spec, f, limit, serial, model, start=[None, pools.order_reversed, pools.order_rot(1)][j % 3],
-                     path=path, truth=truth)
+                     path=path, truth=truth, cli=(limit == 0 and nlev >= 2 and j % 2 == 0) or (i + j) % 9 == 4)
         if len(rep.violations) >= 10:
             return
 
 
 def replay(ctx, rep, obj, model=True):
     c = obj["case"]
-    run_case(ctx, rep, c["spec"], c["fields"], c["limit"], c["serial"], model)
+    run_case(ctx, rep, c["spec"], c["fields"], c["limit"], c["serial"], model, cli=c.get("cli", False))
